@@ -14,7 +14,11 @@ CFG = dict(
          "SetExternalCommitAllowance, close/reopen, index flush/compaction in between; plus fixed directed scripts "
          "(Discard+Precommit+Reopen, cLogBuf full inside performPrecommit also followed by a replicated tx, sync() stopping "
          "midway then reopen, waiter of a discarded tx, MaxActiveTransactions in synced mode, cancelled calls followed by valid "
-         "commits with MaxTxEntries 2 and embedded values (shrunk from thorough seed 2 script 202); falsifier-only: stale commit-log "
+         "commits with MaxTxEntries 2 and embedded values (shrunk from thorough seed 2 script 202), PreallocFiles with FileSize "
+         "256/512 and a clean Close/Open after EVERY one of 26 commits = more than two commit-log chunks (5/17 resp. 11/23 "
+         "transactions fill a chunk), synced and unsynced, embedded or not); a prealloc-reopen random family (n/12+2 scripts, "
+         "thorough n/6+3: PreallocFiles, FileSize 256/512/600, no external allowance, no removing Discard, 40..70 steps, Close/Open "
+         "after a committing step with probability 100/100/60/30 %, 20..35 committed transactions); falsifier-only: stale commit-log "
          "tail with small chunk files, with and without preallocation) and a concurrent phase (3..7 goroutines committing, a monitor goroutine re-reading, the order of the "
          "returned ids and of the value offsets fed to the model as the interleaving). After EVERY step the whole "
          "committed history is re-read (ReadTx with integrity check, ReadValue, CommittedAlh, LastPrecommittedTxID) and "
@@ -62,6 +66,12 @@ CFG = dict(
         "256, preallocation) after which store.Open fails with 'corrupted transaction log: size is too small' (before 8728288: "
         "committed id 4 -> 5 and a broken PrevAlh link): reported on every run as a KNOWN-FINDING (harness level). The same "
         "history without preallocation was fixed by 09014a8 and stays in the check as a regression scenario",
+        "OpenWith's search for the last non-zero entry of a PREALLOCATED commit log is not in the model (its commit log is the "
+        "logical entry list, so a reopen keeps the committed id by definition): it is covered by the prealloc-reopen directed "
+        "scripts and random family, where the real store is closed and opened at every fill level of the commit-log chunks and "
+        "both the model comparison (committed id, Alh, records after OReopen) and the Go monitor (committed-went-back, "
+        "reopen-failed, tx-changed, state-not-last) must hold. The two prealloc exclusions of the generator stay: no preallocation "
+        "with external commit allowance, no reopen of a preallocated store after a Discard that removed something",
         "harness timing: a commit call runs in its own goroutine until it returns or its precommit is visible; only a call "
         "that can wait for ANOTHER transaction before its precommit (ReplicateTx with an id beyond the next one) gets the "
         "400 ms limit after which its context is cancelled (clock started when the goroutine runs, and at least 2000 polls); "
